@@ -35,6 +35,12 @@ type e1 struct {
 	Deep struct {
 		In e1in `config:"in"`
 	} `config:"deep"`
+	Out struct {
+		Name  string `config:"name" validate:"required"`
+		Inner struct {
+			Port int `config:"port"`
+		} `config:"inner"`
+	} `config:"out"`
 	U  e1Unp   `config:"u"`
 	UL []e1Unp `config:"ul"`
 }
@@ -77,6 +83,7 @@ func H_C14_faults() {
 		"a": 1, "s": "s", "n": validIn(), "l": []interface{}{validIn(), validIn()}, "m": map[string]interface{}{"k": validIn()},
 		"p": validIn(), "q": 1, "arr": []interface{}{1, 2}, "r": "plain", "d": "1s", "deep": map[string]interface{}{"in": validIn()},
 		"u": validIn(), "ul": []interface{}{validIn(), validIn()},
+		"out": map[string]interface{}{"name": "n", "inner": map[string]interface{}{"port": 1}},
 	}
 	bad := func(kind int, field string) (interface{}, string) {
 		switch kind {
@@ -93,7 +100,7 @@ func H_C14_faults() {
 		}
 	}
 	kind := verif.Choice("kind", nFaultKinds)
-	pos := verif.Choice("position", 14)
+	pos := verif.Choice("position", 15)
 	path := ""
 	switch pos {
 	case 0: // top-level scalar
@@ -155,6 +162,9 @@ func H_C14_faults() {
 	case 11: // list element of wrong type
 		cfg["l"] = []interface{}{validIn(), 5}
 		path = "l.1"
+	case 14: // a required setting missing in an object that (dotted spelling) exists only as an outer level of a key
+		cfg["out"] = map[string]interface{}{"inner": map[string]interface{}{"port": 1}}
+		path = "out.name"
 	case 12: // inside the object form of a type with its own Unpack(interface{})
 		v, f := bad(kind, "")
 		in := validIn()
